@@ -25,6 +25,9 @@ var docTable = map[int]int{
 }
 
 func docCode(grpcCode int) int {
+	if grpcCode < 0 { // unanswered until the gun's timeout: DeadlineExceeded
+		return 504
+	}
 	if v, ok := docTable[grpcCode]; ok {
 		return v
 	}
@@ -33,6 +36,10 @@ func docCode(grpcCode int) int {
 
 type GRPCCase struct {
 	Codes        []int  `json:"codes"` // order of the ammo entries; always a permutation of 0..16 plus out-of-range values
+	// negative entries of Codes are calls the target does not answer before the gun's own `timeout` expires: the call
+	// status is then DeadlineExceeded on the client side, which the documented table maps to 504 like a
+	// DeadlineExceeded sent by the target (code 4)
+	TimeoutMs int `json:"gun_timeout_ms,omitempty"` // 0 = 5 s (no unanswered call in the case)
 	Instances    int    `json:"instances"`
 	SharedClient bool   `json:"shared_client"`
 	Method       string `json:"method"`
@@ -42,8 +49,16 @@ func genGRPC(t *rapid.T) GRPCCase {
 	all := []int{0, 1, 2, 3, 4, 5, 6, 7, 8, 9, 10, 11, 12, 13, 14, 15, 16}
 	extra := rapid.SliceOfNDistinct(rapid.SampledFrom([]int{17, 18, 20, 42, 99, 255, 1000}), 0, 3, func(v int) int { return v }).Draw(t, "outOfRange")
 	all = append(all, extra...)
+	timeoutMs := 0
+	if rapid.IntRange(0, 2).Draw(t, "unanswered") == 0 {
+		timeoutMs = rapid.IntRange(800, 1200).Draw(t, "gunTimeoutMs")
+		for i := 0; i < rapid.IntRange(1, 2).Draw(t, "nUnanswered"); i++ {
+			all = append(all, -1-i)
+		}
+	}
 	perm := rapid.Permutation(all).Draw(t, "order")
 	return GRPCCase{
+		TimeoutMs:    timeoutMs,
 		Codes:        perm,
 		Instances:    rapid.IntRange(1, 4).Draw(t, "instances"),
 		SharedClient: rapid.Bool().Draw(t, "sharedClient"),
@@ -89,6 +104,10 @@ func checkGRPC(c GRPCCase, o *vf.Obs) error {
 		if err != nil {
 			return target.GResp{Code: codes.Internal}
 		}
+		if code < 0 {
+			// stays silent well past the gun's timeout (the handler returns when the call's context ends)
+			return target.GResp{Code: codes.OK, DelayMs: c.TimeoutMs + 1500, Hello: "late"}
+		}
 		return target.GResp{Code: codes.Code(code), Hello: "x", Token: "t", UserID: 1, Items: []int64{1}, OrderID: 1}
 	})
 	var sb strings.Builder
@@ -102,6 +121,15 @@ func checkGRPC(c GRPCCase, o *vf.Obs) error {
 	out := pand.TempName("c10g", ".phout")
 	defer pand.Remove(out)
 	gun := map[string]any{"type": "grpc", "target": tg.Addr(), "timeout": "5s"}
+	unanswered := 0
+	for _, code := range c.Codes {
+		if code < 0 {
+			unanswered++
+		}
+	}
+	if unanswered > 0 {
+		gun["timeout"] = fmt.Sprintf("%dms", c.TimeoutMs)
+	}
 	if c.SharedClient {
 		gun["shared-client"] = map[string]any{"enabled": true, "client-number": 2}
 	}
@@ -151,6 +179,9 @@ func checkGRPC(c GRPCCase, o *vf.Obs) error {
 		}
 		proto, _ := strconv.Atoi(f[11])
 		if want := docCode(code); proto != want {
+			if code < 0 {
+				return fmt.Errorf("a call the target left unanswered until the gun's timeout (%d ms; call status DeadlineExceeded) reported as %d, documentation says %d", c.TimeoutMs, proto, want)
+			}
 			return fmt.Errorf("gRPC status %d (%s) reported as %d, documentation says %d", code, codes.Code(code), proto, want)
 		}
 	}
@@ -159,8 +190,9 @@ func checkGRPC(c GRPCCase, o *vf.Obs) error {
 	}
 	o.Class("method_" + c.Method)
 	o.ClassIf(c.SharedClient, "shared_client")
-	o.ClassIf(len(c.Codes) > 17, "out_of_range_codes")
+	o.ClassIf(len(c.Codes)-unanswered > 17, "out_of_range_codes")
 	o.ClassIf(c.Instances >= 2, "instances_ge_2")
+	o.ClassIf(unanswered > 0, "call_unanswered_until_gun_timeout")
 	o.NonTrivial()
 	return nil
 }
